@@ -181,12 +181,27 @@ package syntax
 //@   modifies b.$n, b.$out[*]
 //@   ensures[prefix] b.$n >= old(b.$n) && forall k int :: 0 <= k && k < old(b.$n) ==> b.$out[k] == old(b.$out[k])
 //@   ensures[shape]  EscShape(b, old(b.$n), b.$n - old(b.$n), r, force)
+//@   ensures[printable] forall k int {b.$out[k]} :: old(b.$n) <= k && k < b.$n ==> unicode.IsPrint(b.$out[k])
 //@   loop 0:
 //@     invariant len(s) <= i && i <= 4 && len(s) == HexLen(r) && 256 <= r && r <= 65535
 //@     invariant b.$n == old(b.$n) + 2 + (i - len(s)) && b.$out[old(b.$n)] == '\\' && b.$out[old(b.$n)+1] == 'u'
 //@     invariant forall k int :: 0 <= k && k < i - len(s) ==> b.$out[old(b.$n) + 2 + k] == '0'
 //@     invariant forall k int :: 0 <= k && k < old(b.$n) ==> b.$out[k] == old(b.$out[k])
 //@     decreases 4 - i
+
+// The wrapper: every rune of the result is printable - a control character, or any other rune IsPrint rejects, never
+// reaches the output raw (this is what keeps Escape(s) a literal under IgnorePatternWhitespace, where raw white space
+// is dropped by the pattern scanner; a space is written as backslash-space). Every return path has to establish it, so
+// a shortcut around the per-rune loop is checked like the loop itself.
+// Go's unicode.IsPrint accepts exactly the ASCII characters 0x20..0x7E below 0x80 (trusted fact about the table).
+//@ axiom isprint-ascii: forall r rune {unicode.IsPrint(r)} :: 32 <= r && r <= 126 ==> unicode.IsPrint(r)
+//@ func Escape(input string) (out string)
+//@   props C19
+//@   ensures[printable] forall k int {RuneAtIdx(out, k)} :: 0 <= k && k < RuneCount(out) ==> unicode.IsPrint(RuneAtIdx(out, k))
+//@   loop 0:
+//@     invariant b != nil && b.$n >= 0
+//@     invariant[printable] forall k int {b.$out[k]} :: 0 <= k && k < b.$n ==> unicode.IsPrint(b.$out[k])
+//@     decreases len(input) - $pos
 
 // ---- the decoding side (parser.go): what each escape shape reads back as; cursor discipline (C10) ----
 
